@@ -677,3 +677,5 @@ def run(chk, tier):
     from props import c19
     chk.guard('C19.l', lambda: c19.rule_pp_uaf(chk, prog, tier))      # the tokens an expansion yields must still exist when they are delivered
     chk.guard('C19.t', lambda: c19.rule_token_spellings(chk, prog, tier))      # ... and a replacement list keeps its spellings: the parser does not free what an expansion handed it
+    from props import c13
+    chk.guard('C13.d', lambda: c13.rule_comments(chk, prog, tier))      # a comment is white space: it separates tokens for #, for redefinition and for `name(` in #define
